@@ -80,13 +80,19 @@ class EventSubscriber:
 
         Call unsubscribe() to actually stop subscription.
         """
+        if do_unsubscribe:
+            # Unsubscribe before stopping the relay.  Relay thread ends
+            # on the unsubscribe ack, after relaying every event that was
+            # dispatched ahead of it.  A dispatcher that is gone is not
+            # waited for forever.
+            self.unsubscribe()
+            assert self.relay_thread
+            self.relay_thread.join(timeout=3)
         self._stop_relay_thread()
         logger.debug(
             'Subscriber#%s relay shutdown done',
             self.relay_sub_id,
         )
-        if do_unsubscribe:
-            self.unsubscribe()
 
     def subscribe(self) -> None:
         assert self.relay_sub_id and self.relay_send
